@@ -155,3 +155,101 @@ Definition cube (d : nat) : cell := (pow2 d, pow2 d, pow2 d).
 Lemma v1_visits_depth_le_3 :
   forallb (fun d => perm_check (cvis d (0, 0, 0)) (expected_visits (cube d))) [1%nat; 2%nat; 3%nat] = true.
 Proof. vm_compute. reflexivity. Qed.
+
+(* ------------------------------------------------------------------ the modelled traversal is the sign-free
+   traversal followed by the per-edge emission (every depth, every leaf table) *)
+Lemma map4 {A B} (F : A -> Z -> B) a0 a1 a2 a3 d (row : list Z) :
+  map (fun j => F (nthZ [a0; a1; a2; a3] j d) (nthZ row j 0)) [0; 1; 2; 3] =
+  [F a0 (nthZ row 0 0); F a1 (nthZ row 1 0); F a2 (nthZ row 2 0); F a3 (nthZ row 3 0)].
+Proof. reflexivity. Qed.
+Lemma map2 {A B} (F : A -> Z -> B) a0 a1 d (row : list Z) :
+  map (fun j => F (nthZ [a0; a1] j d) (nthZ row j 0)) [0; 1] = [F a0 (nthZ row 0 0); F a1 (nthZ row 1 0)].
+Proof. reflexivity. Qed.
+
+Section Trav.
+  Variable lc : cell -> N.
+  Definition lf (c : cell) : node := Some (0%nat, c).
+  (* dcContourEdgeProc on four size-1 nodes *)
+  Definition emit (v : visit) : list tri :=
+    let '(dir, o) := v in if forallb (nonempty lc) o then process_edge lc (map lf o) dir else [].
+
+  Lemma sub_S l c k : sub lc (Some (S l, c)) k = Some (l, coff_l l c k).
+  Proof. reflexivity. Qed.
+  Lemma sub_0 c k : sub lc (Some (0%nat, c)) k = if nonempty lc c then Some (0%nat, c) else None.
+  Proof. unfold sub, is_internal, node_kind. destruct (nonempty lc c); reflexivity. Qed.
+  Lemma edge_proc_nil f nd dir : existsb is_nil nd = true -> edge_proc lc f nd dir = [].
+  Proof. intros H. destruct f; cbn [edge_proc]; now rewrite H. Qed.
+  Lemma face_proc_nil f nd dir : existsb is_nil nd = true -> face_proc lc f nd dir = [].
+  Proof. intros H. destruct f; cbn [face_proc]; now rewrite H. Qed.
+  Lemma cell_proc_nil f : cell_proc lc f None = [].
+  Proof. destruct f; reflexivity. Qed.
+
+  Lemma edge_proc_vis l : forall f o0 o1 o2 o3 dir, (l <= f)%nat ->
+    edge_proc lc f [Some (l, o0); Some (l, o1); Some (l, o2); Some (l, o3)] dir = flat_map emit (evis l [o0; o1; o2; o3] dir).
+  Proof.
+    induction l as [|l IH]; intros f o0 o1 o2 o3 dir Hf.
+    - cbn [evis flat_map emit map forallb]. rewrite app_nil_r.
+      assert (E : forallb (fun x => negb (is_internal lc x)) [Some (0%nat, o0); Some (0%nat, o1); Some (0%nat, o2); Some (0%nat, o3)]
+                  = nonempty lc o0 && (nonempty lc o1 && (nonempty lc o2 && (nonempty lc o3 && true)))).
+      { cbn [forallb]. unfold is_internal, node_kind.
+        destruct (nonempty lc o0), (nonempty lc o1), (nonempty lc o2), (nonempty lc o3); reflexivity. }
+      destruct f as [|f]; cbn [edge_proc existsb is_nil orb]; rewrite E;
+        destruct (nonempty lc o0) eqn:E0, (nonempty lc o1) eqn:E1, (nonempty lc o2) eqn:E2, (nonempty lc o3) eqn:E3;
+        cbn [andb]; try reflexivity;
+        cbn [flat_map]; rewrite !edge_proc_nil; try reflexivity;
+        rewrite (map4 (sub lc)), !sub_0, ?E0, ?E1, ?E2, ?E3; reflexivity.
+    - destruct f as [|f]; [lia|]. cbn [edge_proc evis existsb is_nil orb forallb].
+      change (is_internal lc (Some (S l, o0))) with true. cbn [negb andb].
+      rewrite flat_map_flat_map. apply flat_map_ext_in. intros i _.
+      rewrite (map4 (sub lc)), !sub_S.
+      rewrite (map4 (fun c k => coff_l l c k)).
+      apply IH. lia.
+  Qed.
+
+  Ltac tabs := cbv [nthZ nth Z.to_nat Pos.to_nat Pos.iter_op Init.Nat.add Z.add Pos.add Pos.succ Pos.add_carry map
+                    dcFaceProcFaceMask dcFaceProcEdgeMask dcFaceProcOrders dcEdgeProcEdgeMask dcCellProcFaceMask dcCellProcEdgeMask].
+
+  Lemma face_proc_vis l : forall f o0 o1 dir, (l <= f)%nat -> In dir [0; 1; 2] ->
+    face_proc lc f [Some (l, o0); Some (l, o1)] dir = flat_map emit (fvis l [o0; o1] dir).
+  Proof.
+    induction l as [|l IH]; intros f o0 o1 dir Hf Hd.
+    - cbn [fvis flat_map].
+      assert (E : existsb (is_internal lc) [Some (0%nat, o0); Some (0%nat, o1)] = negb (nonempty lc o0) || (negb (nonempty lc o1) || false)).
+      { cbn [existsb]. unfold is_internal, node_kind. destruct (nonempty lc o0), (nonempty lc o1); reflexivity. }
+      assert (Nn : existsb is_nil [Some (0%nat, o0); Some (0%nat, o1)] = false) by reflexivity.
+      destruct f as [|f]; cbn [face_proc]; rewrite Nn, E;
+        destruct (nonempty lc o0) eqn:E0, (nonempty lc o1) eqn:E1; cbn [negb orb]; try reflexivity.
+      all: cbn [flat_map]; rewrite !face_proc_nil, !edge_proc_nil; try reflexivity.
+      all: destruct Hd as [<-|[<-|[<-|[]]]]; tabs; rewrite !sub_0, ?E0, ?E1; reflexivity.
+    - destruct f as [|f]; [lia|]. cbn [face_proc fvis existsb is_nil orb].
+      change (is_internal lc (Some (S l, o0))) with true. cbn [orb].
+      rewrite flat_map_app, !flat_map_flat_map. f_equal.
+      + apply flat_map_ext_in. intros i Hi.
+        rewrite (map2 (sub lc)), !sub_S. rewrite (map2 (fun c k => coff_l l c k)).
+        apply IH; [lia|].
+        destruct Hd as [<-|[<-|[<-|[]]]]; destruct Hi as [<-|[<-|[<-|[<-|[]]]]]; tabs; tauto.
+      + apply flat_map_ext_in. intros i Hi.
+        destruct Hd as [<-|[<-|[<-|[]]]]; destruct Hi as [<-|[<-|[<-|[<-|[]]]]]; tabs;
+          rewrite !sub_S; apply edge_proc_vis; lia.
+  Qed.
+
+  Lemma cell_proc_vis l : forall f off, (l <= f)%nat ->
+    cell_proc lc f (Some (l, off)) = flat_map emit (cvis l off).
+  Proof.
+    induction l as [|l IH]; intros f off Hf.
+    - cbn [cvis flat_map]. destruct f as [|f]; cbn [cell_proc is_nil]; unfold is_internal, node_kind;
+        destruct (nonempty lc off); try reflexivity.
+      cbn [child flat_map]. rewrite !cell_proc_nil, !face_proc_nil, !edge_proc_nil; reflexivity.
+    - destruct f as [|f]; [lia|]. cbn [cell_proc cvis is_nil].
+      change (is_internal lc (Some (S l, off))) with true. cbv iota.
+      rewrite !flat_map_app, !flat_map_flat_map. f_equal; [|f_equal].
+      + apply flat_map_ext_in. intros i _. apply IH. lia.
+      + apply flat_map_ext_in. intros i Hi. apply face_proc_vis; [lia|].
+        repeat (destruct Hi as [<-|Hi]; [tabs; tauto|]). destruct Hi.
+      + apply flat_map_ext_in. intros i Hi. rewrite (map_ext _ (fun j => Some (l, coff_l l off (nthZ (nthZ dcCellProcEdgeMask i []) j 0)))) by reflexivity.
+        cbn [map]. apply edge_proc_vis. lia.
+  Qed.
+
+  Theorem v1_mesh_is_visits d : v1_mesh_lc lc d = flat_map emit (cvis d (0, 0, 0)).
+  Proof. apply cell_proc_vis. lia. Qed.
+End Trav.
